@@ -201,7 +201,8 @@ class Gen:
             fm.ref = {"form": "local", "file": cur.relpath, "name": name}
             return name, fm
         rng = self.rng
-        form = rng.choice(PKG_FORMS if target.dirs else IMPORT_FORMS)
+        forms = PKG_FORMS if target.dirs else IMPORT_FORMS
+        form = rng.choices(forms, [3 if f.startswith("from-import") else 1 for f in forms])[0]
         # a file normally binds another module / an imported name in one way; now and then it does so in a second way as well
         ckey = (cur.idx, target.idx, name if form.startswith("from-import") else None)
         if ckey in self.form_cache and rng.random() < 0.9:
@@ -872,11 +873,14 @@ def provenance_tag(project, site, callee_qual, recv_classes, under_try, caller_c
                 return lt
     # 4. the function value
     if kind in VALUE_KINDS:
-        t = _ref_tag(project, project.get("value_access", {}).get(callee_qual), "function-value")
+        vref = project.get("value_access", {}).get(callee_qual)
+        t = _ref_tag(project, vref, "function-value")
+        if t and vref.get("form") == "module-attribute" and not _interference(project, vref):
+            t = None          # g = m.f is an ordinary attribute read (only the dotted forms pk.m.f / alias-of-pk.m are singled out)
         if t:
             return t
-    # 5. control context
-    if under_try and site.get("ctrl") not in ("try", "finally", "after-try"):
+    # 5. control context: the receiver object went through a try statement on the way here
+    if under_try and kind in METHOD_KINDS and site.get("ctrl") not in ("try", "finally", "after-try"):
         return "under-try"
     return None
 
@@ -901,6 +905,11 @@ def event_kind(project, site, callee_qual, recv_classes=(), under_try=False, cal
             if ptag.startswith(w + "name-"):
                 return "imported-" + ptag[len(w):]
         return ptag
+    uses_form = (site.get("uses") or {}).get("form", "local")
+    if uses_form in ATTRIBUTE_FORMS:
+        # m.f(..), m.K(..), m.K.sm(..): what matters is that the callee is named through an attribute of a module
+        fam = "constructor/" if kind.startswith("constructor") else ("class-member/" if kind.startswith(("static-method", "class-method")) else "")
+        return fam + ACCESS_KIND[uses_form]
     suffix = "{" + ptag + "}" if ptag else ctrl
     if kind in METHOD_KINDS:
         recv, meth = site["recv"], site["meth"]
